@@ -65,8 +65,20 @@ fn nodes(n: usize) -> Box<[Node]> {
         .collect()
 }
 
+/// Boundary addresses: port 0 and 65535, unspecified and broadcast IPs, an all-zero and an all-ones id.
+fn boundary_nodes() -> Box<[Node]> {
+    vec![
+        Node::new([0x11; 20].into(), SocketAddrV4::new(Ipv4Addr::new(50, 1, 1, 1), 0)),
+        Node::new([0x22; 20].into(), SocketAddrV4::new(Ipv4Addr::new(50, 1, 1, 2), 65535)),
+        Node::new([0x00; 20].into(), SocketAddrV4::new(Ipv4Addr::UNSPECIFIED, 1)),
+        Node::new([0xFF; 20].into(), SocketAddrV4::new(Ipv4Addr::BROADCAST, 6881)),
+        Node::new([0x33; 20].into(), SocketAddrV4::new(Ipv4Addr::new(50, 1, 1, 3), 0)),
+    ]
+    .into()
+}
+
 fn node_lists(quick: bool) -> Vec<Option<Box<[Node]>>> {
-    let mut v = vec![None, Some(nodes(0)), Some(nodes(1)), Some(nodes(8))];
+    let mut v = vec![None, Some(nodes(0)), Some(nodes(1)), Some(nodes(8)), Some(boundary_nodes())];
     if !quick {
         v.push(Some(nodes(20)));
     }
